@@ -27,6 +27,9 @@ def env_sched_c01():
         s.append((1, 1, PP, k, 2))
     s.append((1, 2, F, 'cancel', 2))
     s.append((1, 1, F, 'past', 0))
+    # deliberately NOT on the dyadic grid: 0.1 + 0.2 = 0.30000000000000004 > 0.3 (times that differ by float noise)
+    s.append((0.1, 1, F, 'follow', 0.2))
+    s.append((0.3, 2, LP, 'log', 0))
     return s
 
 
@@ -53,7 +56,8 @@ class C01(Check):
             '{schedule(dt in 0/1/2.5, asset 1/2, priority FAIL / FAIL+0.5 / PASS_PART / 1.5, action that logs / schedules '
             'a follow-up / pauses, resumes, cancels another asset / schedules in the past -- all from INSIDE the action), '
             'pause/unpause/cancel(asset), schedule-in-the-past, step with every tie-break choice, run(1), run(2.5) with '
-            'every tie-break choice inside (free of depth)}; non-trivial = partition in which a tie was broken and a run '
+            'every tie-break choice inside (free of depth)} plus one pair of times that differ only by float rounding '
+            '(0.1+0.2 vs 0.3); every fork-derived terminal path is re-run linearly through the real System.simulate(); non-trivial = partition in which a tie was broken and a run '
             'completed; additionally the step monitor of every line exploration (C02..C17) executes the same clock/at-most-once checks')
     level_text = ('Lock-step agreement between the real event queue and a reference queue on every reachable state of the '
                   'bounded operation language: tie group offered for dispatch = earliest/highest-priority pending events, '
@@ -64,8 +68,10 @@ class C01(Check):
 
     def jobs(self, tier):
         D = 4 if tier == 'quick' else 5
-        params = {'depth': D, 'sched': env_sched_c01(), 'assets': [1, 2], 'runs': [1, 2.5]}
-        return split_first('env', f'ENV-C01[D{D}]', params, e2=10, max_states=3000000, max_seconds=3000)
+        params = {'depth': D, 'sched': env_sched_c01(), 'assets': [1, 2], 'runs': [1, 2.5], 'system': True}
+        # every fork-derived terminal path (up to 4000 per partition) is re-run linearly through the real System.simulate()
+        return split_first('env', f'ENV-C01[D{D}]', params, e2=4000, max_states=3000000, max_seconds=3000,
+                           max_terminal_paths=4000)
 
 
 @check
@@ -77,7 +83,8 @@ class C07(Check):
     rule = ('every sequence of <=D operations (D=5 quick, 6 thorough) on a real Environment from the pause-centric alphabet '
             '{schedule(dt 0/0.5/1/2.5, assets 1..3, two priorities; actions that pause / resume / cancel another asset or '
             'their own from inside, or schedule a follow-up), pause/unpause/cancel(asset 1..3) from outside, step with '
-            'every tie choice, run(1) with every tie choice inside}; non-trivial = partition with an effective pause at a '
+            'every tie choice, run(1) with every tie choice inside}, plus every sequence of <=7 (9 thorough) operations over a '
+            'reduced alphabet (two assets, delays 1/2.5, pause/unpause/cancel, run(1)); non-trivial = partition with an effective pause at a '
             'non-zero time, an effective unpause and a cancellation')
     level_text = ('Lock-step agreement with a reference queue that keeps (time, paused_at, cancelled) per record: after every '
                   'operation the multiset of pending events and the multiset of paused events with their REMAINING delay agree, '
@@ -89,7 +96,13 @@ class C07(Check):
         D = 5 if tier == 'quick' else 6
         params = {'depth': D, 'sched': env_sched_c07(), 'assets': [1, 2, 3], 'runs': [1],
                   'ext': ['pause', 'unpause', 'cancel', 'step']}
-        return split_first('env', f'ENV-C07[D{D}]', params, e2=10, max_states=3000000, max_seconds=3000)
+        jobs = split_first('env', f'ENV-C07[D{D}]', params, e2=200, max_states=3000000, max_seconds=3000)
+        # longer sequences over a reduced alphabet (two assets, one priority, plain actions)
+        D2 = 7 if tier == 'quick' else 9
+        deep = {'depth': D2, 'sched': [(1, 1, F, 'log', 0), (2.5, 1, F, 'log', 0), (1, 2, F, 'log', 0), (2.5, 2, F, 'log', 0)],
+                'assets': [1, 2], 'runs': [1], 'ext': ['pause', 'unpause', 'cancel']}
+        jobs += split_first('env', f'ENV-C07deep[D{D2}]', deep, e2=200, max_states=5000000, max_seconds=3000)
+        return jobs
 
 
 RM_ADDS = [['a', 1], ['a', -1], ['a', -2], ['b', 1], ['b', -1], ['n', 1], ['n', -3], ['a', 0]]
@@ -126,9 +139,9 @@ class C10(Check):
     prop = 'C10'
     technique = COMP_TECH
     level_note = COMP_NOTE
-    rule = ('every sequence of <=D operations (D=5 quick, 7 thorough) on a real ResourceManager + real Environment (pools a:1, b:1) '
+    rule = ('every sequence of <=D operations (D=5 quick, 7 thorough) on a real ResourceManager + real Environment (pools a:2, b:1) '
             'from {reserve_resources_with_callback(request in {a:1},{a:2},{a:1,b:1}; callback that does nothing / reserves the '
-            'request / reserves it and registers a new waiter), direct reserve, full release of any live reservation, '
+            'request / reserves it and registers a new waiter / adds capacity from inside), direct reserve, full release of any live reservation, '
             'add_resources(a|b, +-1), "drain the current instant" (real step() until the instant is exhausted), "advance" (real '
             'run(1))}, <=3 simultaneous waiters; all events of this world are interchangeable availability checks, so there is no '
             'tie-break to enumerate; non-trivial = partition in which several waiters were served in one check and the clock advanced')
@@ -140,14 +153,21 @@ class C10(Check):
     def jobs(self, tier):
         D = 5 if tier == 'quick' else 7
         params = {'depth': D, 'adds': [['a', 1], ['a', -1], ['b', 1], ['b', -1]],
-                  'requests': [{'a': 1}, {'a': 2}, {'a': 1, 'b': 1}]}
-        return split_first('rmwait', f'RMWAIT-C10[D{D}]', params, e2=10, max_states=3000000, max_seconds=3000)
+                  'requests': [{'a': 1}, {'a': 2}, {'a': 1, 'b': 1}], 'pools': [['a', 2], ['b', 1]],
+                  'kinds': ['noop', 'take', 'again', 'give']}
+        jobs = split_first('rmwait', f'RMWAIT-C10[D{D}]', params, e2=50, max_states=3000000, max_seconds=3000)
+        # the same alphabet started from a non-initial state: pool 'a' over capacity (2 in use, capacity reduced to 1)
+        p2 = dict(params)
+        p2['prefix'] = [['reserve', 1], ['add', 1], ['advance']]
+        jobs += split_first('rmwait', f'RMWAIT-C10over[D{D}]', p2, e2=50, max_states=3000000, max_seconds=3000)
+        return jobs
 
 
 MAINT_TARGETS = [{'table': {'x': [1, [1], 3], 'y': [0, [0], 0]}},
                  {'table': {'x': [2, [1.5, 1], 0], 'y': [1, [1], 0], 'big': [5, [1], 0]}},
                  {'table': {'x': [1, [0], 3], 'y': [1, [0.5], 0]}, 'nested': {'start:x': [0, 'y'], 'end:y': [2, 'y']}}]
 MAINT_REQUESTS = [[0, 'x'], [0, 'y'], [1, 'x'], [1, 'y'], [1, 'big'], [2, 'x'], [2, 'y']]
+# tags are handed to the maintainer as freshly built tuples: equal, but never the same object twice
 
 
 @check
